@@ -10,9 +10,12 @@ inline gstuff_context ctx_of(const Alphabet &a)
 {
     // the two alphabets the library ships come from the library's own definitions (default-constructed context,
     // gstuff_context_v0()); the harness' Alphabet constants are the independent reference they are measured against
-    if (a.start == kV1.start && a.stop == kV1.stop)
+    auto same6 = [](const Alphabet &x, const Alphabet &y) {
+        return x.start == y.start && x.stop == y.stop && x.stub == y.stub && x.c_start == y.c_start && x.c_stop == y.c_stop && x.c_stub == y.c_stub;
+    };
+    if (same6(a, kV1))
         return gstuff_context();
-    if (a.start == kV0.start && a.stop == kV0.stop)
+    if (same6(a, kV0))
         return gstuff_context_v0();
     gstuff_context c;
     c.GSTUFF_START = (char)a.start;
